@@ -165,6 +165,16 @@ def enum_cases(tier):
         out.append(("oversized discriminant first", lit_enum("E", N, "false", [("A", "%d" % full, None), ("B", "0", None), ("C", "1", None)]), mk_enum("x", "E", N, [full - 1, 0, 1])))
         out.append(("oversized discriminant between ascending runs", lit_enum("E", N, "false", [("A", "1", None), ("B", "%d" % (full + 1), None), ("C", "0", None), ("D", "2", None)]),
                     mk_enum("x", "E", N, [1, full - 1, 0, 2] if N > 2 else [1, 3, 0, 2], exh=None if N > 2 else "true")))
+    # conditional enums may list more than 2^N variants: a discriminant that does not fit must still be rejected,
+    # wherever it is declared
+    out.append(("conditional: oversized discriminant after the first 2^N variants", lit_enum("E", 1, "conditional",
+                [("A", "0", None), ("B", "1", "#[cfg(all())]"), ("C", "1", "#[cfg(any())]"), ("W", "2", None)]), None))
+    out.append(("conditional: oversized discriminant last of 2^N+2 variants", lit_enum("E", 2, "conditional",
+                [("A", "0", None), ("B", "1", None), ("C", "2", None), ("D", "3", "#[cfg(all())]"), ("D2", "3", "#[cfg(any())]"), ("W", "4", None)]), None))
+    out.append(("conditional: oversized discriminant on a cfg-gated variant beyond 2^N", lit_enum("E", 2, "conditional",
+                [("A", "0", None), ("B", "1", None), ("C", "2", None), ("D", "3", None), ("W", "9", "#[cfg(all())]")]), None))
+    out.append(("conditional: oversized discriminant in the middle of 2^N+1 variants", lit_enum("E", 3, "conditional",
+                [("V%d" % i, "%d" % i, None) for i in range(4)] + [("W", "8", None)] + [("V%d" % i, "%d" % i, None) for i in range(4, 8)]), None))
     out.append(("oversized discriminant in second position, exhaustive=true", lit_enum("E", 2, "true", [("A", "0", None), ("B", "4", None), ("C", "2", None), ("D", "3", None)]),
                 mk_enum("x", "E", 2, [0, 1, 2, 3])))
     for N in (8, 9, 15, 16, 17, 31, 32, 33, 63):
